@@ -46,6 +46,27 @@ fn main() {
     eprintln!("usage: vharness <property> [--tier quick|thorough] [--seed N] --driver PATH --report PATH [--replay FILE]");
     std::process::exit(2);
   }
+  if args[1] == "feel" {
+    // probe: one FEEL expression per stdin line, evaluated in an empty scope; prints `<text> => <value>`
+    std::panic::set_hook(Box::new(|_| {}));
+    let mut input = String::new();
+    use std::io::Read;
+    let _ = std::io::stdin().read_to_string(&mut input);
+    for line in input.lines().filter(|l| !l.trim().is_empty()) {
+      let r = std::panic::catch_unwind(|| {
+        let scope = dmntk_feel::Scope::default();
+        match dmntk_feel_parser::parse_expression(&scope, line, false) {
+          Err(e) => format!("PARSE-ERROR {}", e),
+          Ok(node) => match dmntk_feel_evaluator::evaluate(&scope, &node) {
+            Ok(v) => format!("{:?}", v),
+            Err(e) => format!("EVAL-ERROR {}", e),
+          },
+        }
+      });
+      println!("{} => {}", line, r.unwrap_or_else(|_| "PANIC".to_string()));
+    }
+    return;
+  }
   if args[1] == "child" {
     // a case that may abort the process runs here, in a child of the harness
     std::panic::set_hook(Box::new(|_| {}));
